@@ -22,6 +22,7 @@ impl SchemaMut {
 		let mut state = WriteCanonicalFormState {
 			w: ErrorConversionWriter(Rabin::default()),
 			named_type_written: vec![false; self.nodes.len()],
+			unnamed_in_progress: vec![false; self.nodes.len()],
 		};
 		state.write_canonical_form(self, SchemaKey::from_idx(0))?;
 		Ok(state.w.0.finish())
@@ -31,6 +32,29 @@ impl SchemaMut {
 struct WriteCanonicalFormState<W> {
 	w: ErrorConversionWriter<W>,
 	named_type_written: Vec<bool>,
+	/// Unnamed nodes (array, map, union) that are currently being written:
+	/// encountering one of them again means that we are in a cycle that no
+	/// named reference can break
+	unnamed_in_progress: Vec<bool>,
+}
+
+impl<W> WriteCanonicalFormState<W> {
+	fn enter_unnamed_node(&mut self, key: SchemaKey) -> Result<(), SchemaError> {
+		match self.unnamed_in_progress.get_mut(key.idx) {
+			Some(in_progress @ false) => {
+				*in_progress = true;
+				Ok(())
+			}
+			_ => Err(SchemaError::new(
+				"Schema contains a cycle that can't be avoided using named references",
+			)),
+		}
+	}
+	fn leave_unnamed_node(&mut self, key: SchemaKey) {
+		if let Some(in_progress) = self.unnamed_in_progress.get_mut(key.idx) {
+			*in_progress = false;
+		}
+	}
 }
 
 impl<W: Write> WriteCanonicalFormState<W> {
@@ -92,6 +116,7 @@ impl<W: Write> WriteCanonicalFormState<W> {
 				self.w.write_str("\"string\"")?;
 			}
 			RegularType::Union(ref union) => {
+				self.enter_unnamed_node(key)?;
 				self.w.write_char('[')?;
 				for &variant in &union.variants {
 					if !first_time {
@@ -102,16 +127,21 @@ impl<W: Write> WriteCanonicalFormState<W> {
 					self.write_canonical_form(schema, variant)?;
 				}
 				self.w.write_char(']')?;
+				self.leave_unnamed_node(key);
 			}
 			RegularType::Array(ref array) => {
+				self.enter_unnamed_node(key)?;
 				self.w.write_str("{\"type\":\"array\",\"items\":")?;
 				self.write_canonical_form(schema, array.items)?;
 				self.w.write_char('}')?;
+				self.leave_unnamed_node(key);
 			}
 			RegularType::Map(ref map) => {
+				self.enter_unnamed_node(key)?;
 				self.w.write_str("{\"type\":\"map\",\"values\":")?;
 				self.write_canonical_form(schema, map.values)?;
 				self.w.write_char('}')?;
+				self.leave_unnamed_node(key);
 			}
 			RegularType::Enum(ref enum_) => {
 				if should_not_write_only_name(&enum_.name, self)? {
